@@ -1,16 +1,37 @@
 (* C31 -- a downloaded snap is only kept if its digest matches.
    This file holds the property theorems only: statement, `exact <lemma>`, Print Assumptions.
-   Model: models/Download.v (store/store_download.go: Store.Download and downloadImpl, function by function; SHA3-384 is
-   ideal, i.e. `digest matches` is equality of contents; the server is an arbitrary script of per-request behaviours).
-   Every theorem is for EVERY server script, EVERY retry budget and EVERY pre-existing partial file. *)
+   Model: models/Download.v (store/store_download.go: Store.Download and downloadImpl, function by function, as they are
+   since commit adc145b; SHA3-384 is ideal, i.e. `digest matches` is equality of contents; the server is an arbitrary
+   script of per-request behaviours).
+   Every theorem is for EVERY server script, EVERY retry budget, EVERY pre-existing partial file (empty, correct prefix,
+   wrong prefix, over-long) and EVERY declared size -- including size 0 (undeclared) and a size that is inconsistent with
+   the content: no hypothesis on the size is needed any more. *)
 From Coq Require Import List NArith Bool.
 Import ListNotations.
 Require Import V.lib.Bytes V.models.Download V.proofs.DownloadProofs.
 Open Scope N_scope.
 
-(* loop invariant of downloadImpl: whatever the server did, the error is nil only if the bytes of the file below the
-   write position are the expected content (the running hash is the hash of file[0..pos)); pos never passes the end.
-   Preconditions = what Store.Download establishes: the position is inside the file and is 0 when resume is 0. *)
+(* THE PROPERTY, first half: if Download reports success, the file at the target path is exactly the content whose
+   digest was declared -- whatever the server did (dropped connections, ignored or honoured Range, 206 whatever was
+   asked, corrupted / truncated / over-long bodies, redirects, 5xx, garbage) and whatever partial file was there *)
+Theorem C31_target_only_if_match : forall size expected partial leave attempts script,
+  o_err (download size expected partial leave attempts script) = ENone ->
+  o_target (download size expected partial leave attempts script) = Some expected.
+Proof. exact target_only_if_match. Qed.
+Print Assumptions C31_target_only_if_match.
+
+(* THE PROPERTY, second half: on any failure no target exists (it is only ever produced by the final rename), and a
+   target implies a nil error *)
+Theorem C31_failure_leaves_no_target : forall size expected partial leave attempts script,
+  o_target (download size expected partial leave attempts script) = None <->
+  o_err (download size expected partial leave attempts script) <> ENone.
+Proof. exact (failure_leaves_no_target true). Qed.
+Print Assumptions C31_failure_leaves_no_target.
+
+(* loop invariant of downloadImpl (with or without the truncation): whatever the server did, the error is nil only if the
+   bytes of the file below the write position are the expected content (the running hash is the hash of file[0..pos));
+   pos never passes the end. Preconditions = what Store.Download establishes: the position is inside the file and is 0
+   when resume is 0. *)
 Theorem C31_hash_tracks_file : forall trunc r script expected f pos resume e f' p' rest,
   (pos <= length f)%nat -> (resume = 0%nat -> pos = 0%nat) ->
   dl_loop trunc r script expected f pos resume = (e, f', p', rest) ->
@@ -18,78 +39,34 @@ Theorem C31_hash_tracks_file : forall trunc r script expected f pos resume e f' 
 Proof. exact hash_tracks_file. Qed.
 Print Assumptions C31_hash_tracks_file.
 
-(* on any failure no target exists (it is only ever produced by the final rename), and a target implies a nil error *)
-Theorem C31_failure_leaves_no_target : forall size expected partial leave attempts script,
-  o_target (download size expected partial leave attempts script) = None <->
-  o_err (download size expected partial leave attempts script) <> ENone.
-Proof. exact (failure_leaves_no_target false). Qed.
-Print Assumptions C31_failure_leaves_no_target.
+(* second invariant, specific to the code as it is now: since the file is truncated whenever the write position is
+   reset, every write is an append and the write position is always the end of the file *)
+Theorem C31_position_is_end_of_file : forall r script expected f resume e f' p' rest,
+  dl_loop true r script expected f (length f) resume = (e, f', p', rest) -> p' = length f'.
+Proof. exact fixed_appends_only. Qed.
+Print Assumptions C31_position_is_end_of_file.
 
-(* FULL STATEMENT of the property (C31_target_only_if_match):
-     forall size expected partial leave attempts script, 0 < size -> N.of_nat (length expected) = size ->
-       o_err (download ...) = ENone -> o_target (download ...) = Some expected.
-   It is FALSE of the faithful model and of the real code (finding, KNOWN_FINDINGS key stale-tail; replayed on the
-   implementation on every run): after a lost connection that left more bytes in the file than the snap has, a
-   server that ignores Range makes downloadImpl seek back to 0 WITHOUT truncating; the hash of the rewritten prefix
-   matches and the file is renamed with a stale tail. *)
-Theorem C31_target_only_if_match_refuted : exists size expected partial leave attempts script,
+(* HISTORICAL, about the code BEFORE commit adc145b (download_before_fix: seek to 0 without truncation when the server
+   ignored Range). The full statement was false of it, with a declared and consistent size: finding `stale-tail`,
+   repaired in /repo, recorded `fixed:` in KNOWN_FINDINGS. The two inputs stay in the driver as regression cases 7 and 8
+   (size 4: 8 wrong bytes then lost connection, then 200 with the right 4 bytes; size 0: over-long partial, 200). *)
+Theorem C31_before_fix_refuted : exists size expected partial leave attempts script,
   0 < size /\ N.of_nat (length expected) = size /\
-  o_err (download size expected partial leave attempts script) = ENone /\
-  o_target (download size expected partial leave attempts script) <> Some expected.
-Proof. exact target_only_if_match_refuted. Qed.
-Print Assumptions C31_target_only_if_match_refuted.
-
-(* what does hold unconditionally: on success the target BEGINS with the expected content *)
-Theorem C31_success_has_expected_prefix : forall size expected partial leave attempts script,
-  o_err (download size expected partial leave attempts script) = ENone ->
-  exists tail, o_target (download size expected partial leave attempts script) = Some (expected ++ tail).
-Proof. exact success_has_expected_prefix. Qed.
-Print Assumptions C31_success_has_expected_prefix.
-
-(* the full conclusion under a guard on the server: no response body is longer than the declared size and status 206
-   is only sent when the requested range is honoured (dropped connections, ignored ranges, corrupted or truncated
-   bodies, 5xx, redirects, garbage are all still allowed), for a declared non-zero size consistent with the digest *)
-Theorem C31_target_only_if_match_guarded : forall size expected partial leave attempts script,
-  0 < size -> N.of_nat (length expected) = size ->
-  forallb (beh_within (length expected)) script = true ->
-  o_err (download size expected partial leave attempts script) = ENone ->
-  o_target (download size expected partial leave attempts script) = Some expected.
-Proof. exact target_only_if_match_guarded. Qed.
-Print Assumptions C31_target_only_if_match_guarded.
-
-(* why 0 < size is in the guard: an undeclared size with an over-long partial file and a server that merely ignores
-   Range (within the guard otherwise) also ends with a stale tail *)
-Theorem C31_unknown_size_refuted : exists expected partial leave attempts script,
-  forallb (beh_within (length expected)) script = true /\
-  o_err (download 0 expected partial leave attempts script) = ENone /\
-  o_target (download 0 expected partial leave attempts script) <> Some expected.
-Proof. exact unknown_size_refuted. Qed.
-Print Assumptions C31_unknown_size_refuted.
-
-(* the full statement, with no guard at all (any size, any script), for the code with the repair of
-   notes/C31-fix.diff (truncate the file where the position is reset because the server ignored Range) *)
-Theorem C31_fixed_target_only_if_match : forall size expected partial leave attempts script,
-  o_err (download_fixed size expected partial leave attempts script) = ENone ->
-  o_target (download_fixed size expected partial leave attempts script) = Some expected.
-Proof. exact fixed_target_only_if_match. Qed.
-Print Assumptions C31_fixed_target_only_if_match.
-
-Theorem C31_fixed_failure_leaves_no_target : forall size expected partial leave attempts script,
-  o_target (download_fixed size expected partial leave attempts script) = None <->
-  o_err (download_fixed size expected partial leave attempts script) <> ENone.
-Proof. exact (failure_leaves_no_target true). Qed.
-Print Assumptions C31_fixed_failure_leaves_no_target.
+  o_err (download_before_fix size expected partial leave attempts script) = ENone /\
+  o_target (download_before_fix size expected partial leave attempts script) <> Some expected.
+Proof. exact before_fix_refuted. Qed.
+Print Assumptions C31_before_fix_refuted.
 
 (* ---- non-vacuity: the hypotheses are met by runs that do succeed / fail in interesting ways *)
 Definition abcd : bytes := [97;98;99;100].
+Definition xs8 : bytes := [88;88;88;88;88;88;88;88].
 Definition honest : beh := Resp 200 true abcd Full.
 
-(* resume of a correct prefix after a lost connection, within the guard: success, target = content *)
+(* resume of a correct prefix after a lost connection and a dropped one: success, target = content *)
 Example C31_ex_resume :
-  let s := [Resp 200 true abcd (EarlyClose 1); Drop; honest] in
-  forallb (beh_within 4) s = true /\
-  download 4 abcd [97] false 3 s = {| o_err := ENone; o_target := Some abcd; o_partial := None |}.
-Proof. vm_compute. split; reflexivity. Qed.
+  download 4 abcd [97] false 3 [Resp 200 true abcd (EarlyClose 1); Drop; honest]
+  = {| o_err := ENone; o_target := Some abcd; o_partial := None |}.
+Proof. vm_compute. reflexivity. Qed.
 
 (* wrong partial prefix: the hash error is met once, the file is truncated and the second download succeeds *)
 Example C31_ex_hash_retry :
@@ -103,9 +80,11 @@ Example C31_ex_hash_fail :
   download 4 abcd [] false 3 [bad; bad] = {| o_err := EHash; o_target := None; o_partial := None |}.
 Proof. vm_compute. split; reflexivity. Qed.
 
-(* the refuting run, and the same run on the repaired code (hash error on the over-long data is impossible there:
-   the stale bytes are gone, the download succeeds with the right content) *)
-Example C31_ex_stale_tail :
-  o_target (download 4 abcd [] false 3 refute_script) = Some [97;98;99;100;88;88;88;88] /\
-  o_target (download_fixed 4 abcd [] false 3 refute_script) = Some abcd.
-Proof. vm_compute. split; reflexivity. Qed.
+(* the two former counterexamples (driver cases 7 and 8): stale tail before the fix, exact content now; the size-0
+   corner (undeclared size, over-long partial, server ignoring Range) needs no guard any more *)
+Example C31_ex_regression :
+  o_target (download_before_fix 4 abcd [] false 3 refute_script) = Some (abcd ++ [88;88;88;88]) /\
+  o_target (download 4 abcd [] false 3 refute_script) = Some abcd /\
+  o_target (download_before_fix 0 abcd xs8 false 3 [Resp 200 false abcd Full]) = Some (abcd ++ [88;88;88;88]) /\
+  o_target (download 0 abcd xs8 false 3 [Resp 200 false abcd Full]) = Some abcd.
+Proof. vm_compute. repeat split; reflexivity. Qed.
